@@ -176,6 +176,7 @@ theorem destWrite_sem (lhs : CExpr) {x y : ILPure} (h : PEqAt ms σ [] x y) :
   cases lhs with
   | var n t => simp only [destWrite, ResRel]; exact fun subs => EEqAt.setl n h
   | reg n k t => simp only [destWrite, ResRel]; exact fun subs => EEqAt.writeReg _ _ h
+  | imm l s => simp only [destWrite, ResRel]; exact fun subs => EEqAt.setl l h
   | _ => simp only [destWrite]; trivial
 
 end
